@@ -1,5 +1,5 @@
 (* C11, part 1: the overwrite-mode writer of lib/ringbuffer.c (RbModel.alloc with ovw = true: the loop
-   `while (space_free < len + MARGIN) _rb_chunk_reclaim') refines the abstract "drop oldest until admitted"
+   `while (space_free < len + MARGIN) _rb_chunk_reclaim') refines the abstract "drop oldest until accepted"
    writer of RbSpec.v (ow_spec_step), for every operation list; the loop terminates within the fuel. *)
 From Coq Require Import ZArith List Bool Lia ZifyBool.
 Import ListNotations.
